@@ -12,6 +12,7 @@ INVARIANT InvChainComplex
 INVARIANT InvDefAlg
 INVARIANT InvSkeleton
 INVARIANT InvCone
+INVARIANT InvIsolated
 INVARIANT InvDefinitional
 INVARIANT EmitCase
 CHECK_DEADLOCK FALSE
